@@ -401,6 +401,9 @@ func (c *FuncCtx) checkOwnedSlice(st *State, e ast.Expr) {
 			if c.isParam(o) {
 				limitf("%s: element write through slice parameter %q (aliasing not modelled)", c.eng.posStr(e.Pos()), x.Name)
 			}
+			if c.sliceAlias[o] {
+				limitf("%s: element write through %q, which may share its backing array with another slice (aliasing not modelled)", c.eng.posStr(e.Pos()), x.Name)
+			}
 			return
 		}
 	case *ast.IndexExpr:
